@@ -1456,6 +1456,7 @@ func cfgValidScalars(cfg *ResponseConfig) bool {
 //@ func cfgFromRequest
 //@   wiring
 //@   returns  (nowMS, cfg, errHT)
+//@   callsite Sprintf requires remainingInMs: arg0 == "%dms too early" ==> nvarargs == 1 && vararg0.(int) == cfg.StartTimeS*1000 - nowMS
 //@   exit 7 requires handedOnOnlyFromStart: errHT == nil && cfg != nil && nowMS >= cfg.StartTimeS*1000 && cfgValidScalars(cfg)
 
 // ---------------------------------------------------------------------------
@@ -1567,9 +1568,20 @@ func sumChunkDurs(chunks []chunk, n int) int {
 // writeChunkedSegment: chunks are cut at segment duration minus the advertised
 // availabilityTimeOffset (a positive duration), and chunk k is released when the wall clock has
 // reached availabilityStartTime + segment start + the durations of chunks 0..k.
+// isImageSpec: the request names a thumbnail (path extension .jpg; uninterpreted in proofs).
+func isImageSpec(p string) bool { return isImage(p) }
+
+//@ uninterpreted isImageSpec
+
+//@ func isImage
+//@   defines isImageSpec(segPath)
+
 //@ func writeChunkedSegment
 //@   wiring
 //@   requires cfg != nil && a != nil
+//@   exit 3 requires imageServedWhole: isImageSpec(segmentPart) && ret0 == nil
+//@   exit 4 requires onlyMediaNeedsParsedSegment: !isImageSpec(segmentPart) && so.seg == nil
+//@   callsite chunkSegment requires notAnImage: !isImageSpec(segmentPart) && so.seg != nil
 //@   callsite chunkSegment requires positive: arg_chunkDur > 0
 //@   callsite chunkSegment requires advertised: arg_chunkDur == (a.SegmentDurMS - int(cfg.AvailabilityTimeOffsetS*1000.0)) * int(so.meta.rep.MediaTimescale) / 1000 && arg_segMeta == so.meta && arg_seg == so.seg
 //@   loop 1 invariant true
